@@ -127,6 +127,12 @@ def checkedInt (x : Rat) : Option Int :=
   let ad := if 0 ≤ d then d else -d
   if ad > 1/1000000 then none else some r
 
+/-- `checked_int_cast` raising `e` -/
+def intOrErr (x : Rat) (e : Err) : Except Err Int :=
+  match checkedInt x with
+  | some a => .ok a
+  | none => .error e
+
 /-! ## Template syntax -/
 
 inductive Interp where | hold | linear | jump
@@ -783,8 +789,11 @@ def updatedCm (inner : List (Chan × Option Chan)) (outer : List (Chan × Option
     | some o => do let r ← chanLookup outer o; pure (k, r))
 
 /-- `MappingPulseTemplate.map_parameter_values` (used when the mapping template is part of an atomic
-template): constraints, then *all* mapped values, eagerly, into a plain dictionary -/
+template): external parameters present, constraints, then *all* mapped values, eagerly, into a plain dictionary -/
 def mapParameterValues (pm : List (String × Expr)) (cons : List Expr) (σ : Scope) : Except Err Scope := do
+  -- `_validate_parameters`: every external parameter must be a key of the scope (no evaluation yet)
+  (pm.flatMap (fun (_, e) => e.vars) ++ cons.flatMap Expr.vars).forM (fun x =>
+    if σ.keys.contains x then pure () else .error .parameterMissing)
   validateCons cons σ.look
   let kv ← pm.mapM (fun (p, e) => do let v ← σ.eval e; pure (p, v))
   pure (.dict kv)
@@ -1083,11 +1092,11 @@ def internal : PT → Ctx → Except Err (List Item)
   | .forLoop _ body idx start stop step meas cons, ctx => do
       validateCons cons ctx.scope.look
       let a ← ctx.scope.eval start
-      let a ← match checkedInt a with | some a => pure a | none => .error .valueError
+      let a ← intOrErr a .valueError
       let b ← ctx.scope.eval stop
-      let b ← match checkedInt b with | some b => pure b | none => .error .valueError
+      let b ← intOrErr b .valueError
       let s ← ctx.scope.eval step
-      let s ← match checkedInt s with | some s => pure s | none => .error .valueError
+      let s ← intOrErr s .valueError
       if s = 0 then .error .valueError else do
       let ms ← getMeas meas ctx.scope.look ctx.mm
       let items ← (pyRange a b s).flatMapM (fun (i : Int) =>
@@ -1406,11 +1415,11 @@ def denote : PT → Scope → List (MName × Option MName) → List (Chan × Opt
   | .forLoop _ body idx start stop step meas cons, σ, mm, cm => do
       validateCons cons σ.look
       let a ← σ.eval start
-      let a ← match checkedInt a with | some a => pure a | none => .error .valueError
+      let a ← intOrErr a .valueError
       let b ← σ.eval stop
-      let b ← match checkedInt b with | some b => pure b | none => .error .valueError
+      let b ← intOrErr b .valueError
       let s ← σ.eval step
-      let s ← match checkedInt s with | some s => pure s | none => .error .valueError
+      let s ← intOrErr s .valueError
       if s = 0 then .error .valueError else do
       let ms ← getMeas meas σ.look mm
       let parts ← (pyRange a b s).mapM (fun (i : Int) => denote body (.range σ idx (i : Rat)) mm cm)
@@ -1483,6 +1492,20 @@ def denoteTop (pt : PT) (params : List (String × Rat)) (mm : Option (List (MNam
   let ctx ← topCtx pt params mm cmUser []
   denote pt ctx.scope ctx.mm ctx.cm
 
+def sumList : List Rat → Rat
+  | [] => 0
+  | x :: xs => x + sumList xs
+
+/-- `ForLoopPulseTemplate.duration`: `Piecewise((0, step_count <= 0), (Sum(body(start + i*step),
+(i, 0, Max(step_count, 1) - 1)), True))` with `step_count = ceiling((stop - start) / step)`; `g v` is the
+body duration with the loop index bound to `v` -/
+def forLoopClosedForm (g : Rat → Except Err Rat) (a b s : Rat) : Except Err Rat :=
+  if s = 0 then .error .zeroDivision else
+  let stepCount : Int := ((b - a) / s).ceil
+  if stepCount ≤ 0 then pure 0 else do
+    let ds ← (List.range (max stepCount 1).toNat).mapM (fun (k : Nat) => g (a + (k : Rat) * s))
+    pure (sumList ds)
+
 mutual
 /-- the value of the class' symbolic `duration` expression in a scope -/
 def templateDuration : PT → Scope → Except Err Rat
@@ -1507,12 +1530,7 @@ def templateDuration : PT → Scope → Except Err Rat
       let a ← σ.eval start
       let b ← σ.eval stop
       let s ← σ.eval step
-      if s = 0 then .error .zeroDivision else
-      let stepCount : Int := ((b - a) / s).ceil
-      if stepCount ≤ 0 then pure 0 else do
-        let ds ← (List.range stepCount.toNat).mapM (fun (k : Nat) =>
-          templateDuration body (.range σ idx (a + (k : Rat) * s)))
-        pure (ds.foldl (· + ·) 0)
+      forLoopClosedForm (fun v => templateDuration body (.range σ idx v)) a b s
   | .mapping _ body pm _ _ _, σ => templateDuration body (.mapped σ pm)
   | .parallel _ body _, σ => templateDuration body σ
   | .atomicMulti _ subs dur _ _, σ => match dur with
